@@ -109,6 +109,7 @@ int alloc_msa_seq(struct msa_seq** s)
         seq->alloc_len = 512;
 
         MMALLOC(seq->name, sizeof(char)* MSA_NAME_LEN);
+        seq->name[0] = 0;
 
         MMALLOC(seq->seq, sizeof(char) * seq->alloc_len);
         MMALLOC(seq->s, sizeof(uint8_t) * seq->alloc_len);
